@@ -85,9 +85,10 @@ def main():
             except Exception:
                 out['errors'].append({'unit': name, 'case': i, 'trace': traceback.format_exc()})
                 break
-            if status == 'vacuous':
+            if status == 'vacuous' and not results:
                 rec['vacuous'] += 1
                 continue
+            # clauses evaluated before a later assumption failed were evaluated under the assumptions in force then: they count
             rec['cases'] += 1
             if not used:
                 n = 1                      # a unit without inputs is deterministic: one run is all there is
